@@ -66,6 +66,17 @@ func sanitizeStyle(input string) string {
 		if t.Type == scanner.TokenError {
 			return ""
 		}
+		if t.Type == scanner.TokenFunction {
+			// A url( that the scanner could not match as a complete URI token (e.g. a space or
+			// quote inside) is read differently by browsers: a bad-url ends at the first ')',
+			// whatever quotes follow, so text this scanner takes for one string token would be
+			// parsed as further declarations.  Drop the whole style, as for other scan errors.
+			// The same goes for a function name written with escapes (u\72l).
+			name := strings.ToLower(strings.TrimSuffix(t.Value, "("))
+			if name == "url" || strings.Contains(name, "\\") {
+				return ""
+			}
+		}
 		state = state(b, t)
 		if state == nil {
 			return ""
